@@ -35,7 +35,7 @@ ASSUMPTIONS = [
     "models/codec.py is the CiA 301 encoding (little-endian two's complement, IEEE 754, ASCII, UTF-16-LE)",
     "UNICODE_STRING values are BMP characters without surrogates and without trailing NUL; VISIBLE_STRING values are printable ASCII (the decoder strips trailing NULs by design)",
     "python-can's threaded virtual bus named in the quantifier is replaced by SimBus + seeded scheduler: its interleavings are not under the simulator's control",
-    "no frame loss; scheduling granularity = simulator primitives plus up to 3 line-level pre-emptions inside canopen/ per run",
+    "no frame loss; delivery later than the client's time-out only in marked 'slow episodes' of Mode I (calls made inside an episode are not judged, every later round trip is); scheduling granularity = simulator primitives plus up to 3 line-level pre-emptions inside canopen/ per run",
 ]
 COMPONENTS = {
     "real": ["canopen.Network (send_lock, subscribers, notify)", "canopen.RemoteNode / LocalNode", "canopen.sdo.client", "canopen.sdo.server",
@@ -43,7 +43,8 @@ COMPONENTS = {
     "stub": ["CAN backend (SimBus; optional non-thread-safe TX slot model)", "can.Notifier (one receive task per Network under the seeded scheduler)",
              "time/queue/threading inside canopen modules", "caller threads = baton-passing real threads"],
 }
-PROBES = ["mode-T", "mode-I", "inline-delivery", "deferred-delivery", "unrelated-traffic", "preempted", "clients>=4", "by-name", "record-member"]
+PROBES = ["mode-T", "mode-I", "inline-delivery", "deferred-delivery", "unrelated-traffic", "preempted", "clients>=4", "by-name", "record-member",
+          "late-answers-queued"]
 
 INT_TYPES = sorted(codec.INTS)
 STR_TYPES = (codec.VISIBLE_STRING, codec.UNICODE_STRING, codec.OCTET_STRING, codec.DOMAIN)
@@ -244,12 +245,49 @@ def scenario(ctx):
             one_roundtrip(ctx, remote, local, t, path, v, "sweep")
             ctx.cover(("I", t, path, "boundary", ch.inline_mode))
     # seeded extras
-    for _ in range(ctx.choice(6, "extra")):
+    nextra = ctx.choice(6, "extra")
+    slow_at = ctx.choice(2 * nextra + 2, "slowat")      # < nextra: a slow episode precedes that extra round trip
+    for i in range(nextra):
+        if i == slow_at and not ch.inline_mode:
+            _slow_episode(ctx, ch, remote, nid)
         p2 = PATHS[ctx.choice(len(PATHS), "p2")]
         t2 = eff_type(ALL[ctx.choice(len(ALL), "t2")], p2)
         v, cls = gen_value(ctx, t2, nid)
         one_roundtrip(ctx, remote, local, t2, p2, v, "extra", 1 + ctx.choice(4, "k"))
         ctx.cover(("I", t2, p2, cls, ch.inline_mode))
+
+
+def _slow_episode(ctx, ch, remote, nid):
+    """The dispatcher that delivers the frames is late by more than the client's
+    SDO time-out for a while: the 1..3 calls made meanwhile may time out (not
+    judged), their answers arrive afterwards and wait in the client's queue.
+    Every later round trip is judged as usual (late answers must be discarded)."""
+    tr = ch.transport
+    old = (tr.lat_lo, tr.lat_hi, remote.sdo.RESPONSE_TIMEOUT)
+    remote.sdo.RESPONSE_TIMEOUT = 0.05
+    tr.lat_lo = tr.lat_hi = (40 + 20 * ctx.choice(4, "slowlat")) * MS
+    timed_out = 0
+    try:
+        for _ in range(1 + ctx.choice(3, "nslow")):
+            p2 = PATHS[ctx.choice(len(PATHS), "sp")]
+            t2 = eff_type(ALL[ctx.choice(len(ALL), "st")], p2)
+            var = accessor(remote.sdo, t2, p2, 1 + ctx.choice(4, "sk"))[0]
+            try:
+                if ctx.choice(2, "srw"):
+                    var.raw = gen_value(ctx, t2, nid)[0]
+                else:
+                    var.raw
+            except canopen.SdoCommunicationError:
+                timed_out += 1
+            except canopen.SdoAbortedError:
+                pass        # e.g. nothing stored yet, or the server saw the client's time-out abort in between
+    finally:
+        tr.lat_lo, tr.lat_hi, remote.sdo.RESPONSE_TIMEOUT = old
+    ctx.run_for(400 * MS)       # everything still in flight arrives before the next call
+    if timed_out:
+        ctx.fault("answers-later-than-timeout", timed_out)
+        ctx.probe("late-answers-queued")
+    ctx.cover(("slow-episode", min(timed_out, 3)))
 
 
 def _mode_t(ctx):
